@@ -114,8 +114,19 @@ def gen_spec(rng: random.Random, big: bool) -> dict:
             if pn != "tsk" and [pc, pn] != late["remove"]:
                 late["burst"][f"{pc}.{pn}"] = [rng.choice(SIGS) for _ in range(rng.randint(2, 6))]
     kinds = {f"{pc}.{pn}": "inst" for (pc, pn) in pubs if pn != "tsk" and rng.random() < 0.3}   # QMI_Instrument publishers
+    # a publisher whose release takes time is removed while another thread re-creates the same name, subscribes
+    # receivers to the new instance and lets it publish; more publications after the removal has completed
+    recreate = None
+    if rng.random() < 0.35:
+        rr = [r for r in range(nrcv) if "P" in reach[rcvs[r]]]
+        if rr:
+            recreate = {"yields": rng.choice([5, 20, 60, 150]),
+                        "old_subs": [[r, rng.choice(SIGS), via()] for r in rr if rng.random() < 0.4],
+                        "subs": [[r, sg, via()] for r in rr for sg in SIGS if rng.random() < 0.6],
+                        "burst1": [rng.choice(SIGS) for _ in range(rng.randint(1, 5))],
+                        "burst2": [rng.choice(SIGS) for _ in range(rng.randint(2, 6))]}
     return {"ctxs": ctxs, "pubs": pubs, "kinds": kinds, "rcvs": rcvs, "links": links, "threads": threads, "presub": presub, "bursts": bursts,
-            "second": second, "late": late, "policy": rng.choice(["weighted", "weighted", "pct"])}
+            "second": second, "late": late, "recreate": recreate, "policy": rng.choice(["weighted", "weighted", "pct"])}
 
 
 # ---------------------------------------------------------------------------
@@ -130,6 +141,17 @@ def _classes():
     class Pub(QMI_RpcObject):
         sa = QMI_Signal([int])
         sa2 = QMI_Signal([int])
+
+        def __init__(self, context, name, slow_release=0):
+            super().__init__(context, name)
+            self._slow_release = slow_release
+
+        def release_rpc_object(self):
+            # releasing resources takes (scheduler) time: remove_rpc_object stays parked in manager.stop() meanwhile
+            from harness import detsched as D
+            for _ in range(self._slow_release):
+                if D.SCHED is not None:
+                    D.SCHED.yield_point("release")
 
         @rpc_method
         def burst(self, items):
@@ -206,6 +228,9 @@ def run_c07(seed, spec: dict, change_points=None, trace_funcs=()):
                     proxies[(pc, pn)] = ctxs[pc].make_instrument(pn, PubInstr)
                 else:
                     proxies[(pc, pn)] = ctxs[pc].make_rpc_object(pn, Pub)
+            rec = spec.get("recreate")
+            if rec:
+                rec_old = ctxs["P"].make_rpc_object("pmr", Pub, rec["yields"])
             rcvs = []
             for cn in spec["rcvs"]:
                 r = QMI_SignalReceiver(max_queue_length=100000)
@@ -241,6 +266,9 @@ def run_c07(seed, spec: dict, change_points=None, trace_funcs=()):
             for ps in spec["presub"]:
                 call("sub", *ps)
             errors = []
+            if rec:
+                for (r, sg, v) in rec["old_subs"]:
+                    call("sub", r, "P", "pmr", sg, v)
 
             def subscriber(ops):
                 def fn():
@@ -295,6 +323,51 @@ def run_c07(seed, spec: dict, change_points=None, trace_funcs=()):
                     raise
                 except BaseException as e:  # noqa  (the task's run() died: a publish call raised)
                     errors.append(("publish", pc, pn, "sa", type(e).__name__))
+            if rec:
+                from qmi.core.exceptions import QMI_DuplicateNameException
+                old_proxy = rec_old
+                newp = {}
+
+                def remover():
+                    ctxs["P"].remove_rpc_object(old_proxy)
+
+                def recreator():
+                    for _ in range(400):
+                        try:
+                            newp["p"] = ctxs["P"].make_rpc_object("pmr", Pub)
+                            break
+                        except QMI_DuplicateNameException:
+                            w.sched.yield_point("retry-make")
+                    if "p" not in newp:
+                        return
+                    rproxies_new = {}
+                    for (r, sg, v) in rec["subs"]:
+                        rc = spec["rcvs"][r]
+                        if v == 2:
+                            if rc not in rproxies_new:
+                                try:
+                                    rproxies_new[rc] = newp["p"] if rc == "P" else ctxs[rc].get_rpc_object_by_name("P.pmr")
+                                except D.SchedAbort:
+                                    raise
+                                except BaseException:  # noqa
+                                    rproxies_new[rc] = None
+                            rproxies[(rc, "P", "pmr")] = rproxies_new[rc]
+                        call("sub", r, "P", "pmr", sg, v)
+                    newp["p"].rpc_nonblocking.burst(items(rec["burst1"])).wait()
+                tw = w.spawn(remover, "remover")
+                tm = w.spawn(recreator, "recreator")
+                for t in (tw, tm):
+                    t.join()
+                    if t.exc is not None:
+                        errors.append(("recreate", type(t.exc).__name__))
+                PC.drain(w)
+                if "p" in newp:
+                    try:
+                        newp["p"].rpc_nonblocking.burst(items(rec["burst2"])).wait()
+                    except D.SchedAbort:
+                        raise
+                    except BaseException as e:  # noqa
+                        errors.append(("publish", "P", "pmr", "*", type(e).__name__))
             late = spec.get("late")
             if late:
                 PC.drain(w)
@@ -316,7 +389,7 @@ def run_c07(seed, spec: dict, change_points=None, trace_funcs=()):
                 except BaseException as e:  # noqa
                     errors.append(("late", type(e).__name__))
             PC.drain(w)
-            tr.note_keys(spec["ctxs"], [p[1] for p in spec["pubs"]], SIGS)
+            tr.note_keys(spec["ctxs"], [p[1] for p in spec["pubs"]] + (["pmr"] if rec else []), SIGS)
             for i in range(len(spec["ctxs"])):
                 tr.dump(tr.cid(spec["ctxs"][i]))
             for r in range(len(rcvs)):
@@ -384,27 +457,54 @@ def oracle(spec: dict, out, tr) -> list:
             if b is not None:
                 dls.append((e[2], e[3], e[4], b, n))
     END = len(ev) + 1
-    removed_at = {}    # (ctx name, publisher) -> event index of the begin of remove_rpc_object
+    removed_at = {}    # (ctx name, publisher) -> event indices of the begins of remove_rpc_object
     dropped_at = {}    # (client ctx name, server ctx name) -> event index of the begin of disconnect_from_peer
     cname_of = {v: k for k, v in tr.ctx_ids.items()}
     for n, e in enumerate(ev):
         if e[1] == "rm-begin":
-            removed_at[(cname_of[e[2]], e[4])] = n
+            removed_at.setdefault((cname_of[e[2]], e[4]), []).append(n)
         elif e[1] == "disc-begin":
             dropped_at[(cname_of[e[2]], e[4])] = n
 
     def definitely_subscribed(key, lo, hi) -> bool:
         """some successful subscribe returned before lo and no unsubscribe was in progress or began in (that return, hi]"""
         ops = subs.get(key, [])
-        if removed_at.get((key[1], key[2]), END + 1) <= hi:
-            return False          # the publisher is (being) removed: that ends the subscription
         if dropped_at.get((spec["rcvs"][key[0]], key[1]), END + 1) <= hi:
             return False          # the receiver's context closes ITS connection to the publisher's context (this direction only)
         for (kind, b, e_, exc) in ops:
             if kind == "sub" and exc is None and e_ < lo:
+                # a removal of the publisher that begins after this subscribe began ends it; a removal that began
+                # earlier concerns an older object of that name (a subscribe can not succeed on an object being removed)
+                if any(b < n <= hi for n in removed_at.get((key[1], key[2]), [])):
+                    continue
                 if not any(k2 == "unsub" and e2 > b and b2 <= hi for (k2, b2, e2, x2) in ops):
                     return True
         return False
+
+    def stale_tag(key, lo) -> str:
+        """':joined-stale-set-before-removal-notice' iff the subscribe that should have made the receiver a subscriber
+        began while a removal notice for exactly that (publisher, signal) was already on its way to the subscriber
+        (decided before the subscribe began, arrived after it): the call joined the local subscriber set of the OLD
+        publisher object, which the late notice then emptied."""
+        if key[1] == spec["rcvs"][key[0]]:
+            return ""
+        begins = [ev[b][0] for (kind, b, e_, exc) in subs.get(key, []) if kind == "sub" and exc is None and e_ < lo]
+        if not begins:
+            return ""
+        lb = max(begins)
+        pat = f" rem {tr.oid(key[2])} {tr.sid(key[3])}"
+        # "on its way": the lock section of handle_object_removed (which decides to send the notice) ran before the
+        # subscribe began; the notice arrived after it
+        sent = False
+        ob = tr.oid(key[2])
+        for i, l in enumerate(tr.lines[:lb]):
+            t = l.split(" ")
+            if len(t) == 5 and t[0] == "begin" and t[3] == "rm" and t[4] == str(ob):
+                who = f"m u {t[1]} {t[2]} L"
+                if any(x == who for x in tr.lines[i + 1:lb]):
+                    sent = True
+        arrived = any(l.startswith("arrive ") and l.endswith(pat) for l in tr.lines[lb:])
+        return ":joined-stale-set-before-removal-notice" if (sent and arrived) else ""
 
     def possibly_subscribed(key, pub_begin, at) -> bool:
         """some subscribe began before the delivery `at`, and no unsubscribe returned before the publication began
@@ -457,14 +557,14 @@ def oracle(spec: dict, out, tr) -> list:
             p = pubs[uid]
             key = (r, p["ctx"], p["pub"], p["sig"])
             if definitely_subscribed(key, b, e_) and seen.get(uid, 0) == 0:
-                bad.append(("not-delivered", f"receiver {r} ({rctx[r]}) was subscribed to {p['ctx']}.{p['pub']}.{p['sig']} while publication {uid} "
+                bad.append(("not-delivered" + stale_tag(key, b), f"receiver {r} ({rctx[r]}) was subscribed to {p['ctx']}.{p['pub']}.{p['sig']} while publication {uid} "
                             f"was delivered in its context, but did not get it"))
         # must-arrive: subscribed from before the publication began until the end
         for uid, p in pubs.items():
             key = (r, p["ctx"], p["pub"], p["sig"])
             if definitely_subscribed(key, p["begin"], END) and seen.get(uid, 0) == 0 and p["end"] is not None:
                 where = "local" if p["ctx"] == rctx[r] else "remote"
-                bad.append((f"not-delivered-{where}", f"receiver {r} ({rctx[r]}) stayed subscribed to {p['ctx']}.{p['pub']}.{p['sig']} from before publication "
+                bad.append((f"not-delivered-{where}" + stale_tag(key, p["begin"]), f"receiver {r} ({rctx[r]}) stayed subscribed to {p['ctx']}.{p['pub']}.{p['sig']} from before publication "
                             f"{uid} began to the end, but did not get it"))
     # dedupe clauses, keep first detail
     out_l, seen_c = [], set()
